@@ -288,8 +288,9 @@ func (x *hw) httpwireSharedClient(out *strings.Builder) {
 	p := x.pkgs["components/guns/http"]
 	var rows []string
 	if fd := hwFunc(p, "BaseGun", "prepareClientPool"); fd != nil {
-		d := &hwDesc{x: x, p: p, fn: fd, labels: map[types.Object]string{}}
-		rows = append(rows, "prepareClientPool: "+strings.Join(d.httpwireBlock(fd.Body.List), " ; "))
+		// round 4: translated SEMANTICALLY (sharedPool / sharedPoolFill, area_httpwire_r4.go); no statement shape is pinned any more,
+		// so that equivalent guard orders, renamed or added locals pass and a change of the decision does not
+		rows = append(rows, "prepareClientPool: see sharedPool, sharedPoolFill")
 	} else {
 		x.failf(p, nil, "BaseGun.prepareClientPool not found")
 	}
